@@ -47,7 +47,7 @@ TNext ==
               /\ CASE line.a = "trig" ->
                         LET r == TriggerNode(st.node[line.n], line.n, line.m.r)
                             p == Publish(r.nd, line.n, r.out, 1) IN
-                        /\ drift' = drift \cup (IF [st.node EXCEPT ![line.n] = r.nd] = obsTabs /\ p.prod = line.prod /\ line.err = ""
+                        /\ drift' = drift \cup (IF [st.node EXCEPT ![line.n] = r.nd] = obsTabs /\ p.prod = line.prod /\ line.err = r.err
                                                 THEN {} ELSE {l})
                         /\ st' = [node |-> obsTabs, net |-> st.net (+) PacketsOf(line.n, line.prod, 1)]
                    [] line.a = "dlv" ->
